@@ -188,7 +188,12 @@ pub fn decode<const B: usize, const L: usize>(rs: &mut ReadSeam, p: &Plan) -> De
                 Sign::Plus
             };
             let b = BigInt::from_bytes_be(sign, s);
-            let u = Uint::<B, L>::try_from(&b).map_err(|e| format!("{e:?}"))?;
+            let r1 = Uint::<B, L>::try_from(&b);
+            let r2 = Uint::<B, L>::try_from(b);
+            if r1.is_ok() != r2.is_ok() || (r1.is_ok() && r1.as_ref().ok() != r2.as_ref().ok()) {
+                rs.ctx.violate("LIE", "TryFrom<BigInt> and TryFrom<&BigInt> disagree");
+            }
+            let u = r1.map_err(|e| format!("{e:?}"))?;
             rs.ctx.observe("TryFrom<BigInt>", &u)
         }
         2 => {
